@@ -198,6 +198,36 @@ pub open spec fn set_entry_post(A0: CscMatrix<F>, A1: CscMatrix<F>, row: int, co
             &&& A1.rowval@ == A0.rowval@.insert(p, row as usize) && A1.nzval@ == A0.nzval@.insert(p, value)
             &&& colptr_shifted(A0.colptr@, A1.colptr@, col) }
 }
+
+pub open spec fn cnt_lt(s: Seq<usize>, k: int, r: int) -> int decreases k { if k <= 0 { 0 } else { cnt_lt(s, k - 1, r) + (if s[k - 1] < r { 1int } else { 0int }) } }
+pub proof fn lemma_cnt_lt_sorted(s: Seq<usize>, k: int, r: int)
+    requires 0 <= k <= s.len(), nondecreasing(s),
+    ensures 0 <= cnt_lt(s, k, r) <= k, forall|i: int| 0 <= i < k ==> (#[trigger] s[i] < r <==> i < cnt_lt(s, k, r)),
+    decreases k,
+{
+    if k > 0 {
+        lemma_cnt_lt_sorted(s, k - 1, r);
+        if s[k - 1] < r { if k - 1 > 0 { assert(s[k - 2] <= s[k - 1]); assert(s[k - 2] < r <==> k - 2 < cnt_lt(s, k - 1, r)); } }
+    }
+}
+pub proof fn lemma_entry_pos_exists(A: CscMatrix<F>, row: int, col: int)
+    requires canonical(A), 0 <= col < A.n, A.colptr@[col] <= A.colptr@[col + 1] <= A.rowval@.len(),
+    ensures entry_pos(A, row, col, A.colptr@[col] + cnt_lt(col_rows(A, col), col_rows(A, col).len() as int, row)),
+{
+    let sq = col_rows(A, col); let lo = A.colptr@[col] as int;
+    lemma_col_sorted(A, col);
+    lemma_cnt_lt_sorted(sq, sq.len() as int, row);
+    let p = lo + cnt_lt(sq, sq.len() as int, row);
+    assert forall|k: int| lo <= k < p implies #[trigger] A.rowval@[k] < row by { assert(sq[k - lo] == A.rowval@[k]); }
+    assert forall|k: int| p <= k < A.colptr@[col + 1] implies #[trigger] A.rowval@[k] >= row by { assert(sq[k - lo] == A.rowval@[k]); }
+}
+pub proof fn lemma_entry_pos_unique(A: CscMatrix<F>, row: int, col: int, p1: int, p2: int)
+    requires entry_pos(A, row, col, p1), entry_pos(A, row, col, p2),
+    ensures p1 == p2,
+{
+    if p1 < p2 { assert(A.rowval@[p1] >= row); assert(A.rowval@[p1] < row); }
+    if p2 < p1 { assert(A.rowval@[p2] >= row); assert(A.rowval@[p2] < row); }
+}
 // the column counts sum back to the column pointers (telescoping), with one more entry in column col
 pub proof fn lemma_counts_sum(c0: Seq<usize>, cnt: Seq<usize>, n: int, col: int, c: int)
     requires
@@ -625,17 +655,21 @@ it3
         let ghost gr = idx.0 as int;
         let ghost A0 = *self;
         proof { lemma_mono_ab(self.colptr@, gc + 1, self.n as int); assert(self.colptr@[gc] <= self.colptr@[gc + 1] <= self.colptr@[self.n as int]); }
+        // the position of (row, col) in the old matrix, fixed before any statement runs (so that every exit can be judged against it)
+        let ghost gp = A0.colptr@[gc] + cnt_lt(col_rows(A0, gc), col_rows(A0, gc).len() as int, gr);
+        proof { lemma_entry_pos_exists(A0, gr, gc); }
 //@before "let i = usize_partition_point_lt("
         proof {
             lemma_col_sorted(*self, gc);
             assert(rows_in_this_column@ == col_rows(*self, gc));
         }
 //@after "let i = usize_partition_point_lt("
-        let ghost gp = first as int + i as int;
         proof {
-            assert forall|k: int| A0.colptr@[gc] <= k < gp implies #[trigger] A0.rowval@[k] < gr by { assert(col_rows(A0, gc)[k - first] == A0.rowval@[k]); }
-            assert forall|k: int| gp <= k < A0.colptr@[gc + 1] implies #[trigger] A0.rowval@[k] >= gr by { assert(col_rows(A0, gc)[k - first] == A0.rowval@[k]); }
-            assert(entry_pos(A0, gr, gc, gp));
+            let gq = first as int + i as int;
+            assert forall|k: int| A0.colptr@[gc] <= k < gq implies #[trigger] A0.rowval@[k] < gr by { assert(col_rows(A0, gc)[k - first] == A0.rowval@[k]); }
+            assert forall|k: int| gq <= k < A0.colptr@[gc + 1] implies #[trigger] A0.rowval@[k] >= gr by { assert(col_rows(A0, gc)[k - first] == A0.rowval@[k]); }
+            assert(entry_pos(A0, gr, gc, gq));
+            lemma_entry_pos_unique(A0, gr, gc, gq, gp);
             if i < rows_in_this_column@.len() { assert(rows_in_this_column@[i as int] == A0.rowval@[gp]); }
         }
 //@before "return;"
